@@ -93,3 +93,94 @@ func judgeLive(w *check, c *core.Case) (string, string, runStats) {
 }
 
 var _ = rng.New
+
+// C04 returns the check of property C04 (register dependences).
+func C04() api.Check {
+	return &check{
+		id: "C04", quick: 3000, thorough: 300000,
+		variants: pipelined,
+		gen: func(seed uint64, idx int, tier string) item {
+			c := gen.RegPressure(seed)
+			return item{c: c, sub: "reg-pressure"}
+		},
+		judge: judgeRef,
+		desc: wholeMachineDesc("one evaluation = one register-pressure program (2-5 data registers; RAW chains, fans, WAW/WAR pairs, mixed-latency producers; loads from a read-only area, no stores) on one pipelined variant and unit count under one map-order schedule, compared with the reference; distinct_nontrivial = distinct (executed op/branch-outcome sequence, variant, parallelism), >= 3 executed instructions",
+			[]string{"forwarding", "renaming", "scoreboard release", "map-order permutation (forwarding candidate choice)", "flush (branch sub-profile)"}),
+	}
+}
+
+// C05 returns the check of property C05 (cache transparency).
+func C05() api.Check {
+	return &check{
+		id: "C05", quick: 800, thorough: 80000,
+		variants: cached,
+		gen: func(seed uint64, idx int, tier string) item {
+			return item{c: gen.Memory(seed), sub: "memory"}
+		},
+		judge: judgeRef,
+		desc: wholeMachineDesc("one evaluation = one load/store program (all widths, 1-3 address registers, working sets up to 16 KB walked by counted loops so that lines are dirtied, evicted and refetched) on one of MVP-3..8, compared with the reference on registers and on all memory after Run; distinct_nontrivial as for C01",
+			[]string{"capacity eviction of clean and dirty lines", "refetch", "snoop evict / write-back (multi-core)", "end-of-run flush / export / L3 write-back", "map-order permutation"}),
+	}
+}
+
+// C10 returns the check of property C10 (memory dependences in flight).
+func C10() api.Check {
+	return &check{
+		id: "C10", quick: 2500, thorough: 250000,
+		variants: pipelined,
+		gen: func(seed uint64, idx int, tier string) item {
+			return item{c: gen.MemPairs(seed), sub: "mem-pairs"}
+		},
+		judge: judgeRef,
+		desc: wholeMachineDesc("one evaluation = one program of conflicting access pairs/triples (store->load, load->store, store->store on the same byte, word and line through independent address registers, distances 1..8, prepared hit/miss state) on one pipelined variant with 1-4 units/cores, compared with the reference; distinct_nontrivial as for C01",
+			[]string{"same-cycle / adjacent-cycle dispatch to different units or cores", "store buffered in a write unit", "line lock contention", "map-order permutation"}),
+	}
+}
+
+func siteOf(idx int, kinds int) gen.Site {
+	// systematic enumeration of the fault point: delay x length x kind x exit
+	return gen.Site{Delay: idx % 3, Length: 1 + (idx/3)%6, Kind: (idx / 18) % kinds, Exit: (idx / (18 * kinds)) % 4}
+}
+
+// C03 returns the check of property C03 (wrong-path instructions leave no trace).
+func C03() api.Check {
+	d := wholeMachineDesc("fault point enumerated per run index: resolution delay of the branch operand {ALU, warmed load, cold load} x shadow length 1..6 x first shadow kind (11 kinds: register write, store, load, wild load, jal, jalr, div/rem by zero, undefined label, long-then-short writer, second branch, sub-word store); shadow content, surrounding code, data and configuration are seeded. One evaluation = P and its shadow-blanked twin on one pipelined variant; violated iff the machine disagrees with the reference on P and agrees on the twin. distinct_nontrivial = distinct (executed sequence, variant, parallelism) among runs in which at least one flush fired",
+		[]string{"pipeline flush at an enumerated point", "wrong-path register write / store / load / wild load / jal / jalr / div by zero / undefined label", "map-order permutation"})
+	d.Level = "fault_enumeration"
+	return &check{
+		id: "C03", quick: 1600, thorough: 160000,
+		variants: pipelined, perCase: 5,
+		gen: func(seed uint64, idx int, tier string) item {
+			c, shadows := gen.ShadowSites(seed, siteOf(idx, gen.ShadowKinds))
+			var marks []int
+			for _, s := range shadows {
+				marks = append(marks, s[0], s[1])
+			}
+			return item{c: c, marks: marks, sub: "shadow"}
+		},
+		judge: judgeShadow,
+		desc:  d,
+	}
+}
+
+// C09 returns the check of property C09 (returning completes everything older).
+func C09() api.Check {
+	d := wholeMachineDesc("exit point enumerated per run index: tail kind (8: missing load, hit load, store hit, store miss, dependent chain, WAW pair, store then independent load, writes on different units) x tail length 1..6 x exit (ret, fall-through, jump to end, ret reached by a taken branch); body and data seeded. One evaluation = P and its drained twin (nops and a dependent use of every tail result inserted before the exit) on one pipelined variant; violated iff the machine disagrees with the reference on P and agrees with the twin's own reference on the twin",
+		[]string{"program end with a load / store / dependent chain in flight", "map-order permutation"})
+	d.Level = "fault_enumeration"
+	return &check{
+		id: "C09", quick: 1600, thorough: 160000,
+		variants: pipelined, perCase: 5,
+		gen: func(seed uint64, idx int, tier string) item {
+			s := siteOf(idx, gen.TailKinds)
+			c, produced := gen.Tails(seed, s)
+			aux := []int{}
+			for _, r := range produced {
+				aux = append(aux, int(r))
+			}
+			return item{c: c, aux: aux, sub: "tail"}
+		},
+		judge: judgeTail,
+		desc:  d,
+	}
+}
